@@ -78,8 +78,13 @@ pub fn check_proxy(run: &mut Run) {
     let phases = run.phases.clone();
     let mut viol: Vec<(String, String, String)> = Vec::new();
     let mut stats: BTreeMap<String, i64> = BTreeMap::new();
-    let mut bump = |k: &str| *stats.entry(k.to_string()).or_insert(0) += 1;
+    macro_rules! bump {
+        ($k:expr) => {
+            *stats.entry($k.to_string()).or_insert(0) += 1
+        };
+    }
     let mut known_tokens: BTreeMap<String, ()> = BTreeMap::new();
+    let mut guids_per_phase: BTreeMap<usize, std::collections::BTreeSet<String>> = BTreeMap::new();
 
     for (pi, cp, cr) in conns.iter() {
         let phase = &phases[*pi];
@@ -122,7 +127,7 @@ pub fn check_proxy(run: &mut Run) {
             let must_forbid = outcomes.iter().all(|o| *o == Outcome::Forbid);
             let attributed = (cr.redirected && protected) || cp.inject.is_some();
             if relayed {
-                bump("relayed");
+                bump!("relayed");
             }
             if recvs.len() > 1 {
                 viol.push(("C14".into(), "request relayed more than once".into(), format!("tok={} seen {} times at hosts", rq.tok, recvs.len())));
@@ -164,7 +169,7 @@ pub fn check_proxy(run: &mut Run) {
                         } else if !ok_codes.is_empty() && !ok_codes.contains(&st) && !(faults_flowing && st >= 500) {
                             viol.push(("C01".into(), "refusal status does not match any reason that holds".into(), format!("tok={} status={} acceptable={:?} {} {}", rq.tok, st, ok_codes, rq.method, rq.target)));
                         }
-                        bump("refused");
+                        bump!("refused");
                     }
                 } else if !faults_flowing && res.map(|r| r.sent).unwrap_or(false) && cp.close == "normal" {
                     // HTTP lets a server close a connection after any response (and it must when it did not
@@ -172,7 +177,7 @@ pub fn check_proxy(run: &mut Run) {
                     if ri == 0 {
                         viol.push(("C13".into(), "request got no HTTP response".into(), format!("tok={} err={:?}", rq.tok, res.and_then(|r| r.err.clone()))));
                     } else {
-                        bump("followup_without_response");
+                        bump!("followup_without_response");
                     }
                 }
             }
@@ -199,15 +204,41 @@ pub fn check_proxy(run: &mut Run) {
                         Outcome::Relay | Outcome::RelayAudit if !relayed && st == 403 => viol.push(("C02".into(), format!("denied although the declared semantics allow{}", dup), format!("tok={} dst={} caller={:?} GET {} status={}", rq.tok, cp.dst_name, caller, rq.target, st))),
                         _ => {}
                     }
-                    bump("c02.e2e_decisions");
-                    if exp == Outcome::Forbid { bump("c02.e2e_deny"); }
+                    bump!("c02.e2e_decisions");
+                    if exp == Outcome::Forbid { bump!("c02.e2e_deny"); }
                 }
+            }
+
+            // ---------------- C07 the identity used on a connection is the one recorded for that connection
+            if on("C07") {
+                // was the source port used, in this phase, by a client that vanished (no request, or abortive
+                // close) so that its record may not have been consumed when the port was reused?
+                let vanished_peer = conns.iter().any(|(pj, cq, crq)| pj <= pi && cq.idx != cp.idx && crq.connected && crq.src_port == cr.src_port && (cq.reqs.is_empty() || cq.close != "normal"));
+                let tag = if vanished_peer { " [source port reused after a client vanished before the proxy consumed its record]" } else { "" };
+                if relayed && !attributed {
+                    viol.push(("C07".into(), format!("unattributed connection evaluated with another connection's record{}", tag), format!("tok={} port={} dst={}", rq.tok, cr.src_port, cp.dst_name)));
+                }
+                for rv in recvs.iter() {
+                    let claims = rv.msg.head.get_all("x-ms-azure-host-claims");
+                    let want = format!("{{ \"isRoot\": \"{}\"}}", caller.elevated);
+                    if attributed && claims.len() == 1 && claims[0].as_slice() != want.as_bytes() {
+                        viol.push(("C07".into(), format!("request evaluated with the identity of a different connection{}", tag), format!("tok={} port={} got={:?} want={:?}", rq.tok, cr.src_port, String::from_utf8_lossy(claims[0]), want)));
+                    }
+                    if attributed && rv.host != recorded_dst {
+                        viol.push(("C07".into(), format!("request sent to the destination recorded for a different connection{}", tag), format!("tok={} port={} went to {} recorded {}", rq.tok, cr.src_port, rv.host, recorded_dst)));
+                    }
+                }
+                if attributed && !relayed && status == Some(421) {
+                    viol.push(("C07".into(), format!("attributed connection treated as unattributed{}", tag), format!("tok={} port={} dst={}", rq.tok, cr.src_port, cp.dst_name)));
+                }
+                bump!("c07.requests_checked");
+                if vanished_peer { bump!("c07.port_reused_after_vanish"); }
             }
 
             // ---------------- C03 root-only endpoints, no self-proxying
             if on("C03") {
                 if (recorded_dst == hosts::WIRE || recorded_dst == hosts::GA) && !caller.elevated {
-                    bump("c03.nonroot_protected");
+                    bump!("c03.nonroot_protected");
                     if relayed {
                         viol.push(("C03".into(), "non-elevated request to root-only endpoint relayed".into(), format!("tok={} dst={} {}", rq.tok, cp.dst_name, rq.target)));
                     } else if attributed && !traversal && !too_large {
@@ -219,7 +250,7 @@ pub fn check_proxy(run: &mut Run) {
                     }
                 }
                 if injected_self {
-                    bump("c03.self_dst");
+                    bump!("c03.self_dst");
                     if relayed {
                         viol.push(("C03".into(), "request recorded for the proxy's own address relayed".into(), rq.tok.clone()));
                     } else if let Some(st) = status {
@@ -241,15 +272,19 @@ pub fn check_proxy(run: &mut Run) {
                     let key_expected = phase.latched_guid.is_some() && phase.prev_docs.is_empty() && doc_enabled(&phase.doc);
                     match &rv.sig {
                         SigCheck::Valid { guid, .. } => {
-                            bump("sig.valid");
+                            bump!("sig.valid");
+                            guids_per_phase.entry(*pi).or_default().insert(guid.clone());
                             if on("C04") && key_expected && Some(guid) != phase.latched_guid.as_ref() && !plan["rotating"].as_bool().unwrap_or(false) {
                                 viol.push(("C04".into(), "signed with a key other than the latched one".into(), format!("tok={} guid={} latched={:?}", rq.tok, guid, phase.latched_guid)));
                             }
                         }
                         SigCheck::Invalid { guid, why } => {
-                            let prop = if why.contains("MAC does not match") && plan["rotating"].as_bool().unwrap_or(false) { "C10" } else { "C04" };
-                            if on(prop) {
-                                viol.push((prop.into(), "authorization header does not verify".into(), format!("tok={} guid={} {}: {} {}", rq.tok, guid, why, m.method(), m.target())));
+                            if why.starts_with("key id and MAC name different keys") {
+                                if on("C10") || on("C04") {
+                                    viol.push(("C10".into(), "authorization header pairs the id of one key with a MAC computed under another".into(), format!("tok={} header names {}; {}: {} {}", rq.tok, guid, why, m.method(), m.target())));
+                                }
+                            } else if on("C04") || on("C10") {
+                                viol.push(("C04".into(), "authorization header does not verify".into(), format!("tok={} guid={} {}: {} {}", rq.tok, guid, why, m.method(), m.target())));
                             }
                         }
                         SigCheck::Malformed(w) => {
@@ -257,7 +292,7 @@ pub fn check_proxy(run: &mut Run) {
                                 viol.push(("C04".into(), "malformed authorization at host".into(), format!("tok={} {}", rq.tok, w)));
                             }
                         }
-                        SigCheck::NotJudged(_) => bump("sig.not_judged"),
+                        SigCheck::NotJudged(_) => bump!("sig.not_judged"),
                         SigCheck::None => {
                             if on("C04") && key_expected && !exempt {
                                 viol.push(("C04".into(), "relayed unsigned while a key is latched".into(), format!("tok={} {} {}", rq.tok, m.method(), m.target())));
@@ -309,7 +344,7 @@ pub fn check_proxy(run: &mut Run) {
                     if m.head.count("x-ms-azure-host-authorization") > 1 && phase.latched_guid.is_some() && phase.prev_docs.is_empty() && doc_enabled(&phase.doc) && !exempt {
                         viol.push(("C05".into(), "more than one authorization header at the host".into(), rq.tok.clone()));
                     }
-                    bump("c05.checked");
+                    bump!("c05.checked");
                 }
                 // C14 host side transparency
                 if on("C14") {
@@ -337,7 +372,7 @@ pub fn check_proxy(run: &mut Run) {
                             None => viol.push(("C14".into(), "client header missing or altered at host".into(), format!("tok={} {}: {:?}", rq.tok, ln, String::from_utf8_lossy(v)))),
                         }
                     }
-                    bump("c14.host_checked");
+                    bump!("c14.host_checked");
                 }
                 // C15: nothing above the limit may arrive
                 if on("C15") && too_large {
@@ -348,14 +383,14 @@ pub fn check_proxy(run: &mut Run) {
             // ---------------- C15 refusal status
             if on("C15") {
                 if too_large {
-                    bump("c15.over");
+                    bump!("c15.over");
                     if let Some(st) = status {
                         if !(400..500).contains(&st) {
                             viol.push(("C15".into(), "over-limit body not answered with 4xx".into(), format!("tok={} len={} status={}", rq.tok, body_len, st)));
                         }
                     }
                 } else if attributed && !traversal && !provision && outcomes.iter().all(|o| matches!(o, Outcome::Relay | Outcome::RelayAudit)) && !faults_flowing && status.is_some() {
-                    bump("c15.within");
+                    bump!("c15.within");
                     if !relayed {
                         viol.push(("C15".into(), "body within the limit not relayed".into(), format!("tok={} len={} limit={} status={:?}", rq.tok, body_len, limit, status)));
                     }
@@ -406,7 +441,7 @@ pub fn check_proxy(run: &mut Run) {
                                 if marker != 1 && !spec.headers.iter().any(|(n, _)| n.eq_ignore_ascii_case("x-ms-azure-host-authorization")) {
                                     viol.push(("C14".into(), "marker header count".into(), format!("tok={} count={}", rq.tok, marker)));
                                 }
-                                bump("c14.client_checked");
+                                bump!("c14.client_checked");
                             }
                         }
                     }
@@ -424,6 +459,11 @@ pub fn check_proxy(run: &mut Run) {
         }
     }
 
+    for (_p, g) in guids_per_phase.iter() {
+        if g.len() > 1 {
+            bump!("probe.phases_signed_under_two_keys");
+        }
+    }
     // ---------------- every tagged request at a host must come from a known client request
     for r in h.log.iter() {
         if let Some(t) = &r.token {
@@ -451,8 +491,11 @@ pub fn check_proxy(run: &mut Run) {
         for r in h.log.iter().filter(|r| r.token.is_none()) {
             match &r.sig {
                 SigCheck::Invalid { guid, why } => {
-                    let prop = if on("C10") { "C10" } else { "C04" };
-                    viol.push((prop.into(), "agent's own call carries an authorization header that does not verify".into(), format!("{} {} guid={} {}", r.kind, r.msg.target(), guid, why)));
+                    if why.starts_with("key id and MAC name different keys") {
+                        viol.push(("C10".into(), "agent's own call pairs the id of one key with a MAC computed under another".into(), format!("{} {} header names {}; {}", r.kind, r.msg.target(), guid, why)));
+                    } else {
+                        viol.push(("C04".into(), "agent's own call carries an authorization header that does not verify".into(), format!("{} {} guid={} {}", r.kind, r.msg.target(), guid, why)));
+                    }
                 }
                 SigCheck::Malformed(w) => viol.push(("C04".into(), "agent's own call: malformed authorization".into(), format!("{} {}", r.kind, w))),
                 SigCheck::None => {
@@ -460,12 +503,24 @@ pub fn check_proxy(run: &mut Run) {
                         viol.push(("C04".into(), "attestation request unsigned".into(), r.msg.target().to_string()));
                     }
                 }
-                SigCheck::Valid { .. } => bump("sig.own_valid"),
+                SigCheck::Valid { .. } => bump!("sig.own_valid"),
                 SigCheck::NotJudged(_) => {}
             }
         }
     }
     drop(h);
+    if on("C07") {
+        for (name, _t, v) in run.observations.iter() {
+            if name == "audit_map_len" && v.as_u64().unwrap_or(0) != 0 {
+                let any_vanished = conns.iter().any(|(_, cq, crq)| crq.connected && (cq.reqs.is_empty() || cq.close != "normal"));
+                let tag = if any_vanished { " [source port reused after a client vanished before the proxy consumed its record]" } else { "" };
+                viol.push(("C07".into(), format!("attribution record left unconsumed after its connection was accepted{}", tag), format!("{} record(s) in the audit map at a quiescent point", v)));
+            }
+        }
+    }
+    if on("C11") {
+        check_c11(run, &plan, &mut viol, &mut stats);
+    }
     for (k, v) in stats {
         run.stat(&k, v);
     }
@@ -593,4 +648,95 @@ pub fn rbac_direct(run: &mut Run, step: &Value) {
     }
     run.stat("c02.direct_decisions", n);
     run.stat("c02.direct_deny", denies);
+}
+
+/// C11: the failed-authorization summary, aggregated by what the property names (user, executable path,
+/// command line, destination ip and port), equals the reference count of rule denials; the same totals
+/// appear in status.json after the status task's next write.
+fn check_c11(run: &Run, plan: &Value, viol: &mut Vec<(String, String, String)>, stats: &mut BTreeMap<String, i64>) {
+    type Key = (String, String, String, String, u16);
+    let mut lower: BTreeMap<Key, u64> = BTreeMap::new(); // certain rule denials
+    let mut slack: BTreeMap<Key, u64> = BTreeMap::new(); // refusals that may or may not be recorded
+    for (pi, cp, cr) in run.conns.iter() {
+        let phase = &run.phases[*pi];
+        if !cr.connected || (!cr.redirected && cp.dst != hosts::PROXY) {
+            continue;
+        }
+        let caller = crate::world::caller_of(plan, cp.proc);
+        let p = &plan["procs"][cp.proc];
+        let known = p["known"].as_bool().unwrap_or(true);
+        let cmd = if known { p["cmd"].as_array().map(|a| a.iter().map(|x| x.as_str().unwrap_or("")).collect::<Vec<_>>().join(" ")).unwrap_or_default() } else { "undefined".to_string() };
+        let recorded_dst = match &cp.inject { Some(d) => d.clone(), None => cp.dst.clone() };
+        let a: std::net::SocketAddrV4 = recorded_dst.parse().unwrap();
+        let key: Key = (caller.user.clone(), caller.exe_path.clone(), cmd, a.ip().to_string(), a.port());
+        let attributed = cr.redirected || cp.inject.is_some();
+        for (ri, rq) in cp.reqs.iter().enumerate() {
+            let (path, _) = hosts::split_target(&rq.target);
+            if !attributed || path.contains("..") || rq.target == "/provision" {
+                continue;
+            }
+            let answered = cr.results.get(ri).map(|r| r.resp.is_some()).unwrap_or(false);
+            let o = rbac::endpoint_outcome(&phase.doc, &recorded_dst, &caller, &rq.target);
+            let non_rule = recorded_dst == hosts::PROXY || ((recorded_dst == hosts::WIRE || recorded_dst == hosts::GA) && !caller.elevated);
+            let certain = phase.prev_docs.is_empty() && answered && !non_rule;
+            match o {
+                Outcome::Forbid | Outcome::RelayAudit if certain => *lower.entry(key.clone()).or_insert(0) += 1,
+                Outcome::Relay if certain => {}
+                _ => *slack.entry(key.clone()).or_insert(0) += 1,
+            }
+        }
+    }
+    let agg = |arr: &Value| -> BTreeMap<Key, u64> {
+        let mut m: BTreeMap<Key, u64> = BTreeMap::new();
+        for e in arr.as_array().cloned().unwrap_or_default() {
+            let k: Key = (
+                e["userName"].as_str().unwrap_or("").to_string(),
+                e["processFullPath"].as_str().unwrap_or("").to_string(),
+                e["processCmdLine"].as_str().unwrap_or("").to_string(),
+                e["ip"].as_str().unwrap_or("").to_string(),
+                e["port"].as_u64().unwrap_or(0) as u16,
+            );
+            *m.entry(k).or_insert(0) += e["count"].as_u64().unwrap_or(0);
+        }
+        m
+    };
+    let mut observed: Option<BTreeMap<Key, u64>> = None;
+    let mut from_file: Option<BTreeMap<Key, u64>> = None;
+    for (name, _t, v) in run.observations.iter() {
+        if name == "failed_summary" {
+            observed = Some(agg(v));
+        }
+        if name == "status_json" && v.is_object() {
+            from_file = Some(agg(&v["failedAuthenticateSummary"]));
+        }
+    }
+    let observed = match observed {
+        Some(o) => o,
+        None => return,
+    };
+    let mut keys: std::collections::BTreeSet<Key> = lower.keys().cloned().collect();
+    keys.extend(observed.keys().cloned());
+    for k in keys {
+        let lo = *lower.get(&k).unwrap_or(&0);
+        let hi = lo + *slack.get(&k).unwrap_or(&0);
+        let got = *observed.get(&k).unwrap_or(&0);
+        *stats.entry("c11.tuples".into()).or_insert(0) += 1;
+        *stats.entry("c11.denials_expected".into()).or_insert(0) += lo as i64;
+        if got < lo || got > hi {
+            viol.push(("C11".into(), if got < lo { "denial missing from the failed-authorization summary".into() } else { "failed-authorization summary counts more than the denials that happened".into() }, format!("caller/dst={:?} recorded={} expected between {} and {}", k, got, lo, hi)));
+        }
+    }
+    match from_file {
+        Some(f) => {
+            if f != observed {
+                viol.push(("C11".into(), "status.json does not publish the failed-authorization summary".into(), format!("file={:?} agent={:?}", f, observed)));
+            }
+            *stats.entry("c11.status_json_compared".into()).or_insert(0) += 1;
+        }
+        None => {
+            if !lower.is_empty() {
+                viol.push(("C11".into(), "status.json missing or unreadable although denials happened".into(), String::new()));
+            }
+        }
+    }
 }
